@@ -116,6 +116,8 @@ func circMonitors(c *hc.Case, h *circRun, ops []circOp, bounds []int, clocks []t
 		case "setcfg":
 			live = *o.Live
 		}
+		succBefore, lastNoteBefore := consecSucc, lastNote
+		stBefore := append([]oc{}, sinceTransition...)
 		allowAsked, allowAns, preventAns := false, false, false
 		shouldOpenAns, shouldOpenAsked := false, false
 		opened, closed := false, false
@@ -270,6 +272,9 @@ func circMonitors(c *hc.Case, h *circRun, ops []circOp, bounds []int, clocks []t
 			}
 			if preventAns && mc.invoked > 0 {
 				viol(i, "C01: when the open logic vetoes the call the run function is never invoked", "invoked after Prevent=true")
+			}
+			if p.Opener.Kind == "custom" && mc.spec.Prevent && mc.invoked > 0 {
+				viol(i, "C01: when the open logic vetoes the call the run function is never invoked", "the custom opener vetoes this call (its Prevent answers true) yet the run function was invoked (Prevent asked: %v)", preventAns)
 			}
 			mc.vetoed = preventAns
 			if prevOpen && !admittedByCloser {
@@ -461,7 +466,7 @@ func circMonitors(c *hc.Case, h *circRun, ops []circOp, bounds []int, clocks []t
 						w := p.Opener.Dur / int64(p.Opener.N)
 						idx := func(t time.Time) int64 { return int64(t.Sub(openerStart)) / w }
 						atts, errs := int64(0), int64(0)
-						for _, x := range sinceTransition {
+						for _, x := range append(append([]oc{}, stBefore...), oc{segRun[0].K, segRun[0].T}) {
 							if idx(x.t) > idx(now)-int64(p.Opener.N) {
 								switch x.k {
 								case "KSuccess":
@@ -477,8 +482,9 @@ func circMonitors(c *hc.Case, h *circRun, ops []circOp, bounds []int, clocks []t
 					}
 				case "consec":
 					n := int64(0)
-					for j := len(sinceTransition) - 1; j >= 0; j-- {
-						k := sinceTransition[j].k
+					hist := append(append([]oc{}, stBefore...), oc{segRun[0].K, segRun[0].T})
+					for j := len(hist) - 1; j >= 0; j-- {
+						k := hist[j].k
 						if k == "KFailure" || k == "KTimeout" {
 							n++
 						} else if k == "KSuccess" {
@@ -492,6 +498,9 @@ func circMonitors(c *hc.Case, h *circRun, ops []circOp, bounds []int, clocks []t
 				if decided && !opened && wantOpen {
 					viol(i, "C02: the circuit opens at the completion of a failed or timed-out call if and only if the documented threshold is met", "threshold met but the circuit stayed closed (ShouldOpen asked=%v answered=%v)", shouldOpenAsked, shouldOpenAns)
 				}
+				if decided && opened && !wantOpen && !backwards {
+					viol(i, "C02: the circuit opens at the completion of a failed or timed-out call if and only if the documented threshold is met", "the circuit opened though the threshold is not met by the outcomes since the last transition inside the window")
+				}
 				if opened {
 					tags["c02:opened"] = true
 				}
@@ -501,6 +510,20 @@ func circMonitors(c *hc.Case, h *circRun, ops []circOp, bounds []int, clocks []t
 			k := segRun[0].K
 			if (k == "KFailure" || k == "KTimeout") && closed {
 				viol(i, "C03: a failed probe leaves it open", "closed on %s", k)
+			}
+			// calls completing one at a time: it closes, unless forced open, exactly when max(1, Required) successes have
+			// completed since the opening with no failure or timeout in between
+			if k == "KSuccess" && lastNoteBefore == "Opened" && !live.ForceOpen && !live.ForcedClosed && inRun == 0 && o.K == "endrun" {
+				need := p.Closer.Required
+				if need < 1 {
+					need = 1
+				}
+				want := succBefore+1 >= need
+				if want != closed {
+					viol(i, "C03: for calls completing one at a time it closes, unless forced open, exactly when max(1, RequiredConcurrentSuccessful) successes have completed since the opening with no failure or timeout in between",
+						"%d consecutive successes since the opening, required %d, closed=%v", succBefore+1, need, closed)
+				}
+				tags["c03:close_decision"] = true
 			}
 		}
 	}
